@@ -266,3 +266,46 @@ def from_compiled(lark_rules):
         by[name].append({'alias': str(label) if str(label) != name else '', 'body': seq(items)})
     rules = [{'name': n, 'expand1': False, 'keepall': False, 'inline': False, 'alts': by[n]} for n in order]
     return {'rules': rules}
+
+
+def deriv_count(rules, w, cap=200):
+    """number of derivation trees of the token string w in the BNF rules (list of (lhs, [rhs])), capped; used only to keep
+    the derivation-enumerating oracle away from combinatorial inputs (skipped inputs are counted in the evidence)"""
+    import functools
+    import sys
+    by = {}
+    for l, r in rules:
+        by.setdefault(l, []).append(tuple(r))
+    n = len(w)
+    sys.setrecursionlimit(10000)
+    active = set()
+
+    @functools.lru_cache(maxsize=None)
+    def cnt(sym, i, j):
+        if sym not in by:
+            return 1 if j == i + 1 and i < n and w[i] == sym else 0
+        key = (sym, i, j)
+        if key in active:
+            return 0          # cyclic re-entry: callers exclude cyclic grammars anyway
+        active.add(key)
+        tot = 0
+        for rhs in by[sym]:
+            tot += seq(rhs, 0, i, j)
+            if tot > cap:
+                break
+        active.discard(key)
+        return min(tot, cap + 1)
+
+    @functools.lru_cache(maxsize=None)
+    def seq(rhs, k, i, j):
+        if k == len(rhs):
+            return 1 if i == j else 0
+        tot = 0
+        for m in range(i, j + 1):
+            a = cnt(rhs[k], i, m)
+            if a:
+                tot += a * seq(rhs, k + 1, m, j)
+                if tot > cap:
+                    break
+        return min(tot, cap + 1)
+    return cnt('start', 0, n)
